@@ -4,7 +4,7 @@
    environment E (user map/test functions, re), every expression of any depth, every point.
    wf_query = the user's test functions are total (the DSL's own precondition). *)
 From Coq Require Import List ZArith NArith Bool.
-From TF Require Import Base Query Index DB Spec proofs.QueryP.
+From TF Require Import Base Query Index DB Spec proofs.QueryP proofs.LawsP.
 Import ListNotations.
 
 Theorem C09_total : forall E q p, wf_query E q -> exists b, eval E q p = RB b.
@@ -29,7 +29,35 @@ Proof. exact present_tag_cmp. Qed.
 Theorem C09_noop_true : forall E a p, eval E (QNoop a) p = RB true.
 Proof. exact noop_true. Qed.
 
+(* the same meaning as laws on answers: a query and its negation split the (measurement-filtered) database, & is the
+   intersection and | the union of the answers, both commute, ~~q is q, noop() selects everything *)
+Theorem C09_query_and_negation_partition : forall E q m db,
+  spec_count E q m db + spec_count E (QNot q) m db = length (filter (meas_pass m) db) /\
+  (forall p, hit E q m p = true -> hit E (QNot q) m p = false).
+Proof. exact query_and_negation_partition. Qed.
+Theorem C09_and_is_intersection : forall E a b m db,
+  spec_search E (QAnd a b) m false db = filter (fun p => denote E b p) (spec_search E a m false db).
+Proof. exact and_is_intersection. Qed.
+Theorem C09_or_is_union : forall E a b m db p,
+  In p (spec_search E (QOr a b) m false db) <-> In p (spec_search E a m false db) \/ In p (spec_search E b m false db).
+Proof. exact or_is_union. Qed.
+Theorem C09_and_commutes : forall E a b m db, spec_search E (QAnd a b) m false db = spec_search E (QAnd b a) m false db.
+Proof. exact and_commutes. Qed.
+Theorem C09_or_commutes : forall E a b m db, spec_search E (QOr a b) m false db = spec_search E (QOr b a) m false db.
+Proof. exact or_commutes. Qed.
+Theorem C09_double_negation : forall E q m db, spec_search E (QNot (QNot q)) m false db = spec_search E q m false db.
+Proof. exact double_negation. Qed.
+Theorem C09_noop_selects_everything : forall E a m db, spec_search E (QNoop a) m false db = filter (meas_pass m) db.
+Proof. exact noop_selects_everything. Qed.
+
 Print Assumptions C09_total.
+Print Assumptions C09_query_and_negation_partition.
+Print Assumptions C09_and_is_intersection.
+Print Assumptions C09_or_is_union.
+Print Assumptions C09_and_commutes.
+Print Assumptions C09_or_commutes.
+Print Assumptions C09_double_negation.
+Print Assumptions C09_noop_selects_everything.
 Print Assumptions C09_denote.
 Print Assumptions C09_not.
 Print Assumptions C09_and.
